@@ -273,7 +273,8 @@ prop(
     stages=[dict(name="c18", pkg="c18", test="TestC18", access=[], instrument=True,
                  drift=["internal/raterun::" + f for f in ["Runner.Restart", "Runner.Start", "Runner.Start.go", "Runner.Stop", "newSchedules", "schedules.start", "schedules.stop"]],
                  timeout_quick=300, timeout_thorough=3000),
-            dict(name="c18many", pkg="c18", test="TestC18Many", access=[], timeout_quick=300, timeout_thorough=3000)],
+            dict(name="c18many", pkg="c18", test="TestC18Many", access=[], timeout_quick=300, timeout_thorough=3000),
+            dict(name="c18inrun", pkg="c18", test="TestC18InRun", access=[RUN_ACCESS, WORKERS_ACCESS], timeout_quick=300, timeout_thorough=3000)],
     rule="real raterun.Runner with 1-3 schedules (distinct frequencies 2-9ms, start delays 0-30ms), function durations 0-12ms, 0-2 Restarts at random instants, ending by Stop (75%) or by cancelling the context; "
          "in a third of the runs one invocation is held by the harness and Stop is called while it executes; the totally ordered event log (Start, FnStart k, FnEnd, Restart, StopCalled, StopReturned, Cancel) must be admissible "
          "for the extracted checker runner_trace_ok; harness-side: Stop must not return while the held invocation runs, goroutine-leak check after Stop/cancel, one-sided bound invocations <= elapsed/frequency + 2; extracted checker runner_times_ok: an invocation carrying schedule k's frequency never happens before Start + start delays up to k + one period of k (40% of the runs put a slow schedule behind a fast one with a function that overruns the fast ticks); "
@@ -407,6 +408,7 @@ _ACROSS = {
 for _pid, _txt in _ACROSS.items():
     PROPS[_pid]["rule"] = PROPS[_pid]["rule"] + "; across units: " + _txt
 
-# the runner as Run.Do uses it (progress reporter): runs cancelled at every point, setup included,
-# leave no goroutine behind - the run-level stages of C05 also decide that part of C18
-PROPS["C18"]["stages"] = PROPS["C18"]["stages"] + [st for st in PROPS["C05"]["stages"] if st["name"] in ("c05runs", "c05precancel")]
+# the runner as Run.Do uses it (progress reporter): runs whose context is cancelled as they begin
+# leave no goroutine behind - that stage of C05 also decides this part of C18 (the other run-level
+# stages of C05 are not shared: they carry C05's known finding, which is not about the runner)
+PROPS["C18"]["stages"] = PROPS["C18"]["stages"] + [st for st in PROPS["C05"]["stages"] if st["name"] == "c05precancel"]
